@@ -87,8 +87,12 @@ ANCHORS = {
     "C09": {
         GSS: ["GeneratedsSuperSuper.add", "GeneratedsSuperSuper.component_factory", "GeneratedsSuperSuper._check_arg_list",
               "GeneratedsSuperSuper.validate"],
-        "neuroml/__init__.py": ["*"],
+        "neuroml/__init__.py": ["enable_build_time_validation", "disable_build_time_validation", "get_build_time_validation"],
         "neuroml/utils.py": ["component_factory"],
+        # second pass: the helper methods that call the factory / add() (every call site of the regenerated table);
+        # `print_` of neuroml/__init__.py is not C09's and was dropped from the list
+        NML: ["Cell.setup_nml_cell", "Cell.add_membrane_property", "Cell.add_intracellular_property",
+              "Cell.add_segment_group", "Cell.add_channel_density", "Cell.add_channel_density_v", "NeuroMLDocument.append"],
     },
     "C10": {
         GSS: ["GeneratedsSuperSuper.add", "GeneratedsSuperSuper._GeneratedsSuperSuper__add",
